@@ -19,6 +19,7 @@ Answer: `sel=<name|-> inm=<hex|~> sent=<status>[hdr]|- log=<events|-> live=[hdr]
 (q-value outside the modelled grammar / more than 12 elements) or `bad-op`.
 -/
 import CaddyModel.C15.Caddyfile
+import CaddyModel.C15.Recorder
 
 namespace CaddyModel.C15
 
@@ -279,10 +280,11 @@ def handlePx (coding min ae interval n1 n2 kind sched : String) : String :=
        (sched == "s" || sched == "n") then "px-ok" else "bad-op"
   | _, _, _, _ => "bad-op"
 
-def handle : List String → String
-  | ["cf", args, block] => handleCf args block
-  | ["px", coding, min, ae, interval, n1, n2, kind, sched] => handlePx coding min ae interval n1 n2 kind sched
-  | ["fs", encs, prefer, min, pre, file, method, ae, range] => handleFs encs prefer min pre file method ae range
+/-! ### the `rr` op: `rr <mode> <the 12 fields of an ordinary case>` — the scripted handler runs behind a real
+    `caddyhttp.NewResponseRecorder` (mode 0 = never buffer, 1 = always, 2 = buffer status 200 only) which itself
+    sits behind the encode handler; the middleware calls `WriteResponse` when the recorder has buffered. -/
+
+def handleOrdinary (recMode : Option Nat) : List String → String
   | [enc, prefer, min, matcher, method, ae, ws, rcc, inm, dct, rf, script] =>
     match parseNames enc, parseNames prefer, parseInt min, parseMatcher matcher,
           optHex ae, optHex rcc, optHex inm, optHex dct, parseScript script with
@@ -293,9 +295,24 @@ def handle : List String → String
       else if !aeSupported aeB then "unsupported"
       else
         showResult (serve ⟨provisionMinLen minLen, m.matches, id, fun _ => dctB⟩ offered pref
-          ⟨method == "C", aeB, ws == "1", rccB, inmB⟩ ops)
+          ⟨method == "C", aeB, ws == "1", rccB, inmB⟩
+          (match recMode with
+            | none => ops
+            | some mode => recorderOps (bufferMode mode) (fun l => l.foldl (· + ·) 0) (· == 0) ops))
     | _, _, _, _, _, _, _, _, _ => "bad-op"
   | _ => "bad-op"
+
+def handle : List String → String
+  | ["cf", args, block] => handleCf args block
+  | "rr" :: mode :: rest =>
+    if mode == "0" then handleOrdinary (some 0) rest
+    else if mode == "1" then handleOrdinary (some 1) rest
+    else if mode == "2" then handleOrdinary (some 2) rest
+    else "bad-op"
+  | ["px", coding, min, ae, interval, n1, n2, kind, sched] => handlePx coding min ae interval n1 n2 kind sched
+  | ["fs", encs, prefer, min, pre, file, method, ae, range] => handleFs encs prefer min pre file method ae range
+  | l => handleOrdinary none l
+
 
 /-- counter-example lines replayed on the implementation on every run: none — the unchanged tree violates no
     clause any more (the two `minimum_length: -1` scripts of Witness.lean are regression cases in
